@@ -40,8 +40,10 @@
 (*                                                                                  *)
 (* Floats.  The code compares floats where the model compares rationals.  Inputs     *)
 (* whose verdict would hinge on the last ulp are MARKED, not dropped:                *)
-(*   skip = "fence"   a value sits exactly on a fence whose quartiles differ         *)
-(*   sig  = "edge"    p equals alpha exactly                                         *)
+(*   skip = "fence"   a value sits exactly on a fence computed from an interpolated   *)
+(*                    quartile (fence = "flat": on a fence whose quartiles do not     *)
+(*                    interpolate - exact in floats as long as the values are integers)*)
+(*   sig  = "edge"    p equals alpha exactly (judged only if the float p does too)    *)
 (*   dfree            the delta value is not fixed by the statement (old mean 0) or   *)
 (*                    equality of the means is decided on differently computed floats*)
 (*   ordhaz           two rows have equal non-zero delta keys from different samples  *)
@@ -130,6 +132,11 @@ QuartX12(N, num, X(_)) ==
      ELSE IF k >= N THEN 12 * X(N)
      ELSE 12 * X(k) + r * (X(k+1) - X(k))
 
+\* the quantile does not interpolate between two different values (then the code's float
+\* arithmetic on it is exact for integer values)
+QuartFlat(N, num, X(_)) ==
+  LET k == num \div 12 IN k <= 0 \/ k >= N \/ X(k) = X(k+1)
+
 Q1Num(N) == 3 * N + 5        \* 12 * (1/3 + (N + 1/3) / 4)
 Q3Num(N) == 9 * N + 7        \* 12 * (1/3 + 3 (N + 1/3) / 4)
 
@@ -169,13 +176,20 @@ SeqMin(s) == CHOOSE v \in Range(s) : \A w \in Range(s) : v <= w
 SeqMax(s) == CHOOSE v \in Range(s) : \A w \in Range(s) : v >= w
 
 \* What the library must report for a cell with the given measured values (non-empty).
-\* haz: a value lies exactly on a fence although the quartiles differ (float hazard).
+\* haz: a value lies exactly on a fence.  "" no (or the quartiles coincide: the fence is that
+\* value itself); "flat": yes, but neither quartile interpolates, so the code's comparison is
+\* exact whenever the values are integers (the harness then keeps them integral);
+\* "interp": yes, and the float fence may fall on either side of the value - not judged.
 CellStats(vals) ==
   LET f  == FenceOp(vals)
       rv == RetainedOp(vals)
+      xs == InsSortInts(vals)
+      N  == Len(vals)
   IN [has |-> TRUE, vals |-> vals, rv |-> rv,
       min |-> SeqMin(rv), max |-> SeqMax(rv), sum |-> Sum(rv), n |-> Len(rv),
-      haz |-> f.q1 # f.q3 /\ \E i \in 1..Len(vals) : OnFence(f, vals[i])]
+      haz |-> IF f.q1 = f.q3 \/ ~\E i \in 1..N : OnFence(f, vals[i]) THEN ""
+              ELSE IF QuartFlat(N, Q1Num(N), LAMBDA k : xs[k]) /\ QuartFlat(N, Q3Num(N), LAMBDA k : xs[k]) THEN "flat"
+              ELSE "interp"]
 
 NoCell == [has |-> FALSE]
 
@@ -453,16 +467,15 @@ Expected ==
 TabIdx(e) == 1..Len(e.tables)
 RowIdx(t) == 1..Len(t.rows)
 
-\* a value exactly on a fence anywhere, or p exactly alpha: the case is marked, the
-\* harness does not judge it
-SkipReason(e) ==
-  IF \E k \in TabIdx(e) : \E i \in RowIdx(e.tables[k]) : \E c \in 1..NC :
-        e.tables[k].rows[i].cells[c].has /\ e.tables[k].rows[i].cells[c].haz
-  THEN "fence"
-  ELSE IF \E k \in TabIdx(e) : \E i \in RowIdx(e.tables[k]) :
-        IsCmp(e.tables[k].rows[i]) /\ e.tables[k].rows[i].cmp.sig = "edge"
-  THEN "alpha"
-  ELSE ""
+\* the worst fence hazard of any cell: "" | "flat" | "interp"
+FenceHazard(e) ==
+  LET H == UNION {UNION {{e.tables[k].rows[i].cells[c].haz : c \in {c \in 1..NC : e.tables[k].rows[i].cells[c].has}} :
+                           i \in RowIdx(e.tables[k])} : k \in TabIdx(e)}
+  IN IF "interp" \in H THEN "interp" ELSE IF "flat" \in H THEN "flat" ELSE ""
+
+\* a value exactly on an interpolated fence: the case is marked, the harness does not
+\* judge it.  (p exactly alpha is marked per row: sig = "edge".)
+SkipReason(e) == IF FenceHazard(e) = "interp" THEN "fence" ELSE ""
 
 -----------------------------------------------------------------------------
 \* THE BUILDER
@@ -657,6 +670,7 @@ AllOKDone == TypeOK /\ (Done => \A e \in {Expected} : Lemmas(e))
 \* Every prefix is a collection of the family.
 CellVals4 == {0, 1, 3, 8}
 CellVals5 == {0, 1, 4, 10, 40}
+CellVals3 == {0, 4, 10}        \* 7 values 0,0,.,.,4,4,10: 10 sits exactly on the upper fence 4 + 1.5 * 4
 CellPlans(n, V) == {Plan("cell", <<n>>, {1}, {1}, {0}, 1, <<V>>)}
 
 \* (2) "pair": one old/new row: every pair of multisets (sizes 1..n), tests, alphas, both
@@ -673,12 +687,12 @@ SmallPlans(fam, S, V) ==
   {Plan(fam, l, {1, 2}, {1, 2}, {0}, 1, [c \in 1..Len(l) |-> V]) : l \in S}
   \cup {Plan(fam, l, {1, 2}, {3}, {1, 2}, 1, [c \in 1..Len(l) |-> V]) : l \in S}
 
-QuickPlans == CellPlans(6, CellVals4) \cup PairPlans(4, PairVals3) \cup SmallPlans("small", SmallShapes3, {1, 3})
+QuickPlans == CellPlans(6, CellVals4) \cup CellPlans(7, CellVals3) \cup PairPlans(4, PairVals3) \cup SmallPlans("small", SmallShapes3, {1, 3})
 
 \* thorough: longer cells and a palette with fence hazards; pairs of up to 5 values (outliers
 \* inside a comparison) and over 4 values; all orders on 3-line collections incl. an empty
 \* first configuration ("smallx"); 4-line collections under two settings ("smally")
-ThoroughCellPlans  == CellPlans(7, CellVals4) \cup CellPlans(6, CellVals5)
+ThoroughCellPlans  == CellPlans(7, CellVals4) \cup CellPlans(6, CellVals5) \cup CellPlans(8, CellVals3)
 ThoroughPairPlans  == PairPlans(5, PairVals3) \cup PairPlans(4, PairVals4)
 ThoroughSmallPlans == SmallPlans("smallx", SmallShapes3x, {1, 3}) \cup SmallPlans("smally", SmallShapes4, {1, 3})
 ThoroughPlans == ThoroughCellPlans \cup ThoroughPairPlans \cup ThoroughSmallPlans
